@@ -26,6 +26,7 @@ which the entry's inode appeared under that name).  Everything else is the real 
 import errno
 import json
 import os
+import random
 import shutil
 import stat as stat_mod
 import tempfile
@@ -192,6 +193,11 @@ def gen_case(rng, pid, tier):
         if expected and rng.random() < 0.04:
             expected.append(expected[0])
         fault = _fault(rng, 3) if rng.random() < 0.45 else None
+        # side stream: the other user of the cache directory (appcfgmgr drops the entry of an instance it
+        # failed to configure) removes an extra entry between the listing and its unlink
+        r2 = random.Random(repr(rng.getstate()[1][:4]))
+        if r2.random() < 0.1:
+            fault = {'kind': 'race', 'n': r2.choice([0, 0, 1]), 'j': -1}
         if rng.random() < 0.15:
             # the event manager (re)starts over the surviving cache: the real `run()` decides what is
             # synchronised and how (the children watch fires with the placed instances)
@@ -709,6 +715,9 @@ class _Runner:
                     return None                       # a dead process cleans nothing up
                 if not calls:
                     extras.append(os.path.basename(path))
+                    if kind == 'race' and len(extras) - 1 == fault['n'] and not arm['fired']:
+                        arm['fired'] = True
+                        real_unlink(path)             # the other process was faster
                 if arm['active'] and step == 5 and path == arm['tmp']:
                     fire('unlink')
             return real_unlink(path, *a, **kw)
@@ -794,6 +803,9 @@ class _Runner:
                     outcome = 'ValueError'
                 except TypeError:
                     outcome = 'TypeError'
+                except FileNotFoundError:
+                    # (the service exits on it and is restarted: to the model a fault that ends the run)
+                    outcome = 'fault' if kind == 'race' and arm['fired'] else 'error:FileNotFoundError'
                 except Exception as exc:  # pylint: disable=broad-except
                     outcome = 'error:%s' % type(exc).__name__
         finally:
@@ -816,20 +828,24 @@ class _Runner:
         full_missing = rec_missing + sorted((exp - set(vis_before)) - set(rec_missing))
         full_existing = rec_existing + sorted((exp & set(vis_before)) - set(rec_existing)) if check else []
         fired = fault is not None and arm['fired']
-        fstr = '%s:%s:%d' % (arm['app'], kind, step) if fired else 'none'
+        fstr = '%s:%s:%d' % (arm['app'], kind, step) if fired and kind != 'race' else 'none'
         if spec_check is not None and spec_check != check:
             run.tags.add('startup-sync-without-check')
             full_existing = sorted(exp & set(vis_before))
         line = 'sync %d %d %s %s %s %s %s %s' % (
             1 if (check if spec_check is None else spec_check) else 0, self.now, _csv(list(expected)), _csv(extras), _csv(full_missing),
             _csv(full_existing), _csv(['%s:%s' % t for t in tmps]), fstr)
+        if kind == 'race' and arm['fired']:
+            full_extra = extras + sorted((set(vis_before) - exp) - set(extras))
+            line = 'syncr %s %s %d' % (_csv(list(expected)), _csv(full_extra), fault['n'])
+            run.tags.add('unlink-race')
         run.op(line, '%s %s' % (outcome, self.listing(after)))
 
         # ---- tags / non-triviality --------------------------------------------------------------
         run.tags.add('out=%s' % outcome.split(':')[0])
         written = [n for n in after if not n.startswith('.') and
                    (n not in before or before[n]['ino'] != after[n]['ino'])]
-        if fired:
+        if fired and kind != 'race':
             run.tags.add('%s@%d' % (kind, step))
             self.flags['hit'] = True
         if extras:
